@@ -169,6 +169,7 @@ func main() {
 		writeIfChanged(filepath.Join(*out, "Funcs.lean"), w.emitLean())
 		writeIfChanged(filepath.Join(*out, "Facts.lean"), w.emitFacts())
 		writeIfChanged(filepath.Join(*out, "FnDriver.lean"), w.emitDriver())
+		writeIfChanged(filepath.Join(*out, "Schema.lean"), w.emitSchema())
 	}
 	if *meta != "" {
 		writeIfChanged(*meta, w.emitMeta())
